@@ -44,6 +44,8 @@ inductive Task where
   | call (c : Call)
   | run (owner : FId) (cb : Cb) (v : Val)   -- invoke callback `cb` (registered on `owner`) with `v`
   | unlock (f : FId)                         -- deferred `f.mu.Unlock()` (defective mode only)
+  | appendCb (f : FId) (cb : Cb)             -- split-check variant only: the append half of a ThenAccept whose
+                                             -- completed-check ran in an EARLIER critical section (see `stepSplit`)
   deriving Repr, DecidableEq
 
 inductive Mode where
@@ -102,6 +104,9 @@ def stepTask (m : Mode) (s : Sys) (t : Nat) (task : Task) (rest : List Task) : O
   | .run _ (.accept g cb) _ => some { s with threads := s.threads.set t (.call (.thenAccept g cb) :: rest) }
   | .run o (.seq a b) v => some { s with threads := s.threads.set t (.run o a v :: .run o b v :: rest) }
   | .unlock f => some { s with holder := upd s.holder f none, threads := s.threads.set t rest }
+  -- does not exist in the source (check and append are ONE critical section); unreachable from `mkSys`.
+  -- Given the harmless total meaning "perform the whole registration now".
+  | .appendCb f cb => some { s with threads := s.threads.set t (.call (.thenAccept f cb) :: rest) }
 
 /-- one scheduling step: thread `t` performs its next atomic action (`none`: not enabled) -/
 def step (m : Mode) (s : Sys) (t : Nat) : Option Sys :=
@@ -119,6 +124,24 @@ def mkSys (threads : List (List Call)) : Sys :=
     threads := threads.map (·.map Task.call), log := [] }
 
 def terminal (s : Sys) : Bool := s.threads.all (·.isEmpty)
+
+/-! ### the split-check variant (NOT the source): `ThenAccept` peeks `completed` in one critical section
+(e.g. under a read lock), leaves it, and appends the callback in a LATER critical section without
+checking again.  Everything else as in the repaired code. -/
+
+def stepSplit (s : Sys) (t : Nat) : Option Sys :=
+  match s.threads[t]? with
+  | some (.call (.thenAccept f cb) :: rest) =>
+    match s.value f with
+    | some _ => step .repaired s t                                            -- completed: run the callback
+    | none => some { s with threads := s.threads.set t (.appendCb f cb :: rest) }  -- "not completed", lock released
+  | some (.appendCb f cb :: rest) =>
+    some { s with waiting := s.waiting ++ [(f, cb)], threads := s.threads.set t rest }  -- append, no re-check
+  | _ => step .repaired s t
+
+def execSplit (s : Sys) : List Nat → Option Sys
+  | [] => some s
+  | t :: ts => (stepSplit s t).bind (fun s' => execSplit s' ts)
 
 /-! ### the schedules the driver uses (any schedule gives the same summary, by the theorems) -/
 
@@ -151,6 +174,7 @@ def cntCb (τ : Tag) (f : FId) : FId → Cb → Nat
   | o, .seq a b => cntCb τ f o a + cntCb τ f o b
 
 def cntTask (τ : Tag) (f : FId) : Task → Nat
+  | .appendCb g cb => cntCb τ f g cb
   | .call (.thenAccept g cb) => cntCb τ f g cb
   | .call (.complete _ _) => 0
   | .run o cb _ => cntCb τ f o cb
@@ -182,6 +206,7 @@ def protCb (P : List FId) (out : FId) : (FId → Bool) → Cb → Bool
   | ok, .seq a b => protCb P out ok a && protCb P out ok b
 
 def protTask (P : List FId) (out : FId) (done : FId → Bool) : Task → Bool
+  | .appendCb g cb => protCb P out (fun x => done x || x == g) cb
   | .call (.thenAccept g cb) => protCb P out (fun x => done x || x == g) cb
   | .call (.complete o _) => o != out || P.all done
   | .run o cb _ => protCb P out (fun x => done x || x == o) cb
@@ -219,6 +244,7 @@ def wCb : Cb → Nat
   | .seq a b => wCb a + wCb b + 1
 
 def wTask : Task → Nat
+  | .appendCb _ cb => wCb cb + 3
   | .call (.thenAccept _ cb) => wCb cb + 2
   | .call (.complete _ _) => 2
   | .run _ cb _ => wCb cb
